@@ -146,7 +146,31 @@ func execCStream(f []string) (out string) {
 	if hold >= 0 {
 		release.Store(start.Add(time.Duration(hold) * q).UnixNano())
 	}
-	st, serr := cc.Stream(ctx, waitMethod)
+	// watchdog: a Stream attempt that has not returned 3 s after its deadline (no deadline: after 8 quarters + 3 s; every
+	// mode without a deadline becomes ready by then) is reported as `hang` — a wait loop that spins or sleeps for ever
+	// must not hold the whole check (seeded C12-m9)
+	type sres struct {
+		st  grpcadapter.ClientStream
+		err error
+	}
+	sch := make(chan sres, 1)
+	go func() {
+		st, err := cc.Stream(ctx, waitMethod)
+		sch <- sres{st, err}
+	}()
+	limit := 8*q + 3*time.Second
+	if dms > 0 {
+		limit = time.Duration(dms)*time.Millisecond + 3*time.Second
+	}
+	var st grpcadapter.ClientStream
+	var serr error
+	select {
+	case r := <-sch:
+		st, serr = r.st, r.err
+	case <-time.After(limit):
+		contaminated.Store(true) // the attempt is still running (possibly spinning)
+		return "hang"
+	}
 	elapsed := time.Since(start)
 	// load can only delay the return, never hasten it: round with a quarter of slack below and three quarters above
 	quarters := int((elapsed + q/4) / q)
